@@ -425,13 +425,19 @@ class Twin:
                 else:
                     _git(s.path, "update-ref", rn.decode(), val.decode())
             else:
-                if val is None:
-                    try:
-                        del s.ll.refs[rn]
-                    except KeyError:
-                        pass
-                else:
-                    s.ll.refs[rn] = val
+                # "other" = another dulwich process: a fresh handle, closed afterwards
+                h = s.fresh() if actor == "other" else s.ll
+                try:
+                    if val is None:
+                        try:
+                            del h.refs[rn]
+                        except KeyError:
+                            pass
+                    else:
+                        h.refs[rn] = val
+                finally:
+                    if actor == "other":
+                        h.close()
         if val is None:
             self.refs.pop(rn, None)
         else:
@@ -508,6 +514,12 @@ class Twin:
         elif kind == "packed-refs":
             if writer == "git":
                 _git(A.path, "pack-refs", *(["--all"] if variant == "all" else []))
+            elif writer == "other":
+                h = A.fresh()
+                try:
+                    h.refs.pack_refs(all=(variant == "all"))
+                finally:
+                    h.close()
             else:
                 A.ll.refs.pack_refs(all=(variant == "all"))
         elif kind == "idx-version":
@@ -947,15 +959,23 @@ def commit_graph_causes(tw: Twin, ll: bool, only: bytes | None = None) -> set:
     return causes
 
 
-def midx_causes(tw: Twin, ansA: dict) -> set:
-    """An id the MIDX lists although no pack holds it any more: `in` says True, `[]` raises KeyError."""
+def midx_causes(tw: Twin, q: list, ansN: dict, ansA: dict) -> set:
+    """An id the MIDX lists although the object is gone (its pack was repacked / pruned away after the MIDX was
+    written, or the MIDX came from elsewhere): without the file `in` is False and `[]` raises KeyError; with it
+    `in` says True while `[]` still raises KeyError.  A differing `in` query must be about such an id itself;
+    `[]` / `get_raw` differences are never in this class."""
     import json
-    causes = set()
-    for oid in list(tw.kind) + tw.extra_ids:
-        if ansA.get(json.dumps(["in", oid.decode()])) is True and \
-                ansA.get(json.dumps(["get", oid.decode()])) == ["EXC", "KeyError"]:
-            causes.add("midx-entry-trusted-without-pack")
-    return causes
+
+    def stale(oid: str) -> bool:
+        return (ansN.get(json.dumps(["in", oid])) is False and ansN.get(json.dumps(["get", oid])) == ["EXC", "KeyError"]
+                and ansA.get(json.dumps(["in", oid])) is True and ansA.get(json.dumps(["get", oid])) == ["EXC", "KeyError"])
+    if q[0] in ("get", "raw"):
+        return {None}
+    if q[0] == "in":
+        return {"midx-entry-trusted-without-pack"} if stale(q[1]) else {None}
+    if any(stale(o.decode()) for o in list(tw.kind) + tw.extra_ids):
+        return {"midx-entry-trusted-without-pack"}
+    return {None}
 
 
 def _mem_bitmap_packs(tw: Twin):
@@ -1084,7 +1104,7 @@ def classify(tw: Twin, abl: Ablation, key: str, aN, aA, ansN: dict, ansA: dict):
                 only = q[1].encode() if q[0] == "parents" else None
                 causes |= commit_graph_causes(tw, abl.ll, only) or {None}
         elif kind == "midx":
-            causes |= midx_causes(tw, ansA) or {None}
+            causes |= midx_causes(tw, q, ansN, ansA)
         elif kind == "bitmap":
             causes |= bitmap_causes(tw, q, aN, aA)
         elif kind == "packed-refs":
@@ -1131,7 +1151,8 @@ def gen_scenario(rng, subset, use_git: bool, size: int = 10) -> list:
     nref = [0]
 
     def actor():
-        return "git" if use_git and rng.random() < 0.3 else "dulwich"
+        r = rng.random()
+        return "git" if use_git and r < 0.3 else "other" if r > 0.8 else "dulwich"
 
     def add_commit():
         name = f"c{len(names)}"
@@ -1207,7 +1228,7 @@ def gen_scenario(rng, subset, use_git: bool, size: int = 10) -> list:
     else:
         ops.append(["pack-loose"])
     if "packed-refs" in subset and rng.random() < 0.6:
-        ops.append(["accel", "packed-refs", "git" if use_git and rng.random() < 0.5 else "dulwich", "all"])
+        ops.append(["accel", "packed-refs", "git" if use_git and rng.random() < 0.5 else rng.choice(["dulwich", "other"]), "all"])
     ops.append(["check", "stale-maintained"])
     # phase 5: stale / mismatched files put back, or everything rewritten
     r = rng.random()
@@ -1270,7 +1291,8 @@ def checkpoint(ctx, tw: Twin, ops_so_far: list, label: str, sid: str, plan_rng, 
                 seen_cls[k] = seen_cls.get(k, 0) + 1
                 if seen_cls[k] > _FAIL_CAP and cls is not None:
                     continue
-                ctx.oracle_fail(stream, {"ops": ops_so_far, "checkpoint": label, "mode": mode, "query": json.loads(key),
+                ctx.oracle_fail(stream, {"ops": ops_so_far, "sid": sid, "plan_seed": getattr(plan_rng, "_c14_seed", None),
+                                         "extra_plan": extra_plan, "checkpoint": label, "mode": mode, "query": json.loads(key),
                                          "without": aN, "with": aA, "responsible": resp,
                                          "accelerators": list(tw.accel_log)},
                                 f"answer differs with acceleration data present ({', '.join(resp) or 'unattributed'}): "
@@ -1299,7 +1321,8 @@ def check_bitmap_entries(ctx, tw: Twin, ops_so_far, label, sid):
             if bm is None:
                 ctx.count("bitmap.entries", (sid, label, p.name(), "ignored"), True, "ignored")
                 continue
-            case = {"ops": ops_so_far, "checkpoint": label, "pack": p.name().decode(), "accelerators": list(tw.accel_log)}
+            case = {"ops": ops_so_far, "sid": sid, "checkpoint": label, "pack": p.name().decode(), "accelerators": list(tw.accel_log),
+                    "entries_check": True}
             if bm.pack_checksum != p.get_stored_checksum():
                 ctx.oracle_fail("bitmap.entries", case, "a bitmap recording another pack's checksum was loaded and is "
                                 "trusted for this pack", "bitmap-for-other-pack-trusted")
@@ -1340,6 +1363,7 @@ def run_scenario(ctx, ops: list, sid: str, donor: Path | None, plan_seed: str, e
     if donor is not None:
         tw.extra_ids = list(getattr(run_scenario, "_donor_ids", {}).get(str(donor), []))
     prng = random.Random(plan_seed)
+    prng._c14_seed = plan_seed
     seen_cls: dict = {}
     done = []
     try:
@@ -1349,6 +1373,17 @@ def run_scenario(ctx, ops: list, sid: str, donor: Path | None, plan_seed: str, e
                 checkpoint(ctx, tw, list(done), op[1], sid, prng, seen_cls, extra_plan)
                 if always_entries:
                     check_bitmap_entries(ctx, tw, list(done), op[1], sid)
+            elif op[0] == "accel" and op[2] != "git":
+                try:
+                    tw.apply(op)
+                except core.InfraError:
+                    raise
+                except Exception as e:
+                    # writers of acceleration files do not fail on the unchanged tree
+                    import traceback
+                    ctx.disagree("twins.writer", {"ops": list(done), "trace": traceback.format_exc()[-1200:]},
+                                 "writer completes", f"{type(e).__name__}: {e}")
+                    break
             else:
                 tw.apply(op)
     finally:
@@ -1357,11 +1392,11 @@ def run_scenario(ctx, ops: list, sid: str, donor: Path | None, plan_seed: str, e
     return tw
 
 
-def build_donor(ctx, use_git: bool) -> Path:
+def build_donor(ctx, use_git: bool, seed=None) -> Path:
     """An unrelated repository with every acceleration file, to copy mismatched files from."""
     import random
     import shutil
-    rng = random.Random(f"donor:{ctx.seed}")
+    rng = random.Random(f"donor:{ctx.seed if seed is None else seed}")
     ops = []
     names = []
     for i in range(8):
@@ -1420,32 +1455,9 @@ def stream_twins(ctx):
     ctx.extra_cov["accelerator_subsets_covered"] = min(n, len(subsets))
 
 
-def run(ctx: core.Ctx):
-    ctx.assumptions += [
-        "WITH/WITHOUT pairs: twin repositories built by the same logical operations; the 'without' side never "
-        "receives an acceleration file; queries are asked through a long-lived handle and a fresh handle of each",
-        "ground truth used only to CLASSIFY a differing pair (never to decide that a pair differs): parent lists, "
-        "trees and tag targets as constructed by the harness",
-        "packed-refs stat-identity cache: two different files never share (inode, size, mtime_ns) (idealisation)",
-    ]
-    run_corpus(ctx)
-    stream_ewah(ctx)
-    stream_cg(ctx)
-    stream_midx(ctx)
-    stream_gate_refs(ctx)
-    stream_twins(ctx)
-
-
-def search(ctx: core.Ctx):
-    pass
-
-
-def replay(ctx: core.Ctx, data: dict) -> int:
-    return 0
-
-
 def run_corpus(ctx):
-    """Negation witnesses / minimised past failures: scripted scenarios, replayed first on every run."""
+    """Negation witnesses / minimised past failures and always-on probes: scripted scenarios, replayed first on
+    every run."""
     import json
     d = core.VERIF / "corpus" / "C14"
     if not d.exists():
@@ -1457,507 +1469,128 @@ def run_corpus(ctx):
         run_scenario(ctx, w["ops"], "corpus-" + w["id"], None, "corpus:" + w["id"], w.get("extra_plan"), always_entries=True)
         hit = {k: v - before.get(k, 0) for k, v in ctx.known_hit.items() if v != before.get(k, 0)}
         new = [x["class"] for x in ctx.oracle_failures[nfail:]]
-        ctx.count("corpus", (w["id"],), True, w["expect"][1] if (hit or new) else "no-longer-fails")
-        ctx.extra_cov.setdefault("corpus_witnesses", {})[w["id"]] = {"expected": w["expect"], "known_hit": hit, "unmatched": new[:3]}
+        exp = w.get("expect")
+        ctx.count("corpus", (w["id"],), True, ("holds" if not (hit or new) else "probe-fails") if exp is None
+                  else (exp[1] if (hit or new) else "no-longer-fails"))
+        ctx.extra_cov.setdefault("corpus_witnesses", {})[w["id"]] = {"expected": exp, "known_hit": hit, "unmatched": new[:3]}
 
 
-# ================================================================================================
-# FORMAT streams: model vs real, byte for byte and cross-decoding
-# ================================================================================================
-
-def _csv(xs):
-    xs = list(xs)
-    return ",".join(str(x) for x in xs) if xs else "-"
-
-
-def gen_bits(rng) -> tuple[str, list[int]]:
-    """Set-bit positions with the shapes that drive the EWAH encoder through all its branches."""
-    kind = rng.choice(["empty", "single", "sparse", "dense", "ones-run", "zeros-then", "mixed", "boundary", "alt-runs",
-                       "lit-after-run", "full-words"])
-    W = 64
-    if kind == "empty":
-        return kind, []
-    if kind == "single":
-        return kind, [rng.choice([0, 1, 62, 63, 64, 65, 127, 128, 191, 192, 4095, 4096, rng.randrange(20000)])]
-    if kind == "sparse":
-        return kind, sorted({rng.randrange(rng.choice([70, 300, 5000])) for _ in range(rng.randint(1, 12))})
-    if kind == "dense":
-        n = rng.choice([10, 64, 65, 130, 400])
-        return kind, [i for i in range(n) if rng.random() < 0.7]
-    if kind == "ones-run":
-        a, k = rng.randint(0, 3), rng.randint(1, 5)
-        bits = list(range(a * W, (a + k) * W))
-        if rng.random() < 0.5:
-            bits += [(a + k) * W + rng.randrange(W)]
-        if rng.random() < 0.3 and a:
-            bits += [rng.randrange(a * W)]
-        return kind, sorted(set(bits))
-    if kind == "zeros-then":
-        return kind, sorted({rng.randint(2, 40) * W + rng.randrange(W) for _ in range(rng.randint(1, 3))})
-    if kind == "boundary":
-        pool = [0, 63, 64, 127, 128, 129, 191, 192, 255, 256]
-        return kind, sorted(set(rng.sample(pool, rng.randint(1, len(pool)))))
-    if kind == "full-words":
-        k = rng.randint(1, 4)
-        return kind, list(range(k * W))
-    # mixed / alt-runs / lit-after-run: word-level composition
-    words = []
-    for _ in range(rng.randint(1, 12)):
-        t = rng.choice(["z", "o", "l", "l"]) if kind != "alt-runs" else rng.choice(["z", "o"])
-        rep = rng.randint(1, 4)
-        for _ in range(rep):
-            words.append(0 if t == "z" else (2 ** 64 - 1) if t == "o" else rng.getrandbits(64) | 1 << rng.randrange(64))
-    bits = [i * W + j for i, w in enumerate(words) for j in range(W) if w >> j & 1]
-    return kind, bits
+def run(ctx: core.Ctx):
+    ctx.assumptions += [
+        "WITH/WITHOUT pairs: twin repositories built by the same logical operations; the 'without' side never "
+        "receives an acceleration file; queries are asked through a long-lived handle and a fresh handle of each",
+        "ground truth used only to CLASSIFY a differing pair (never to decide that a pair differs): parent lists, "
+        "trees and tag targets as constructed by the harness",
+        "packed-refs stat-identity cache: two different files never share (inode, size, mtime_ns) (idealisation)",
+    ]
+    _quiet()
+    run_corpus(ctx)
+    for fn in (stream_ewah, stream_cg, stream_midx, stream_gate_refs):
+        try:
+            fn(ctx)
+        except core.InfraError:
+            raise
+        except Exception as e:
+            # the unchanged tree never gets here: a codec that now raises on generated, well-formed input
+            import traceback
+            ctx.disagree(fn.__name__, {"trace": traceback.format_exc()[-1500:]}, "stream completes", f"{type(e).__name__}: {e}")
+    stream_twins(ctx)
 
 
-def stream_ewah(ctx):
-    import struct
-    from dulwich.bitmap import EWAHBitmap, _encode_ewah_words
-    rng = ctx.rng
-    cases = [("fixed", []), ("fixed", [0]), ("fixed", [63]), ("fixed", [64]), ("fixed", list(range(64))),
-             ("fixed", list(range(128))), ("fixed", list(range(64, 128))), ("fixed", [0] + list(range(64, 192)) + [200])]
-    cases += [gen_bits(rng) for _ in range(ctx.budget(400))]
-    lines = ["c14.ewah.enc " + _csv(b) for _, b in cases]
-    outs = ctx.driver.batch(lines)
-    dec_lines, dec_meta = [], []
-    for (kind, bits), mo in zip(cases, outs):
+def _quiet():
+    import logging
+    import warnings
+    logging.getLogger("dulwich").setLevel(logging.ERROR)
+    logging.getLogger("dulwich.pack").setLevel(logging.ERROR)
+    warnings.simplefilter("ignore", ResourceWarning)
+
+
+def search(ctx: core.Ctx):
+    """Failing-input search after a broken obligation / correspondence: the direct oracles again, harder.
+    (1) the format round-trip oracles with a boosted budget (they need no model); (2) every witness and probe of
+    the corpus; (3) many more twin scenarios, all accelerator kinds at once, both writers, until one pair differs
+    in a way no known finding explains."""
+    import random
+    _quiet()
+    for fn in (stream_ewah, stream_cg, stream_midx, stream_gate_refs):
+        try:
+            fn(ctx)
+        except core.InfraError:
+            raise
+        except Exception as e:   # a mutated codec may crash the stream itself
+            ctx.notes.append(f"search: {fn.__name__} crashed: {type(e).__name__}: {e}")
+        if ctx.oracle_failures:
+            return
+    run_corpus(ctx)
+    if ctx.oracle_failures:
+        return
+    donor = build_donor(ctx, use_git=True)
+    subsets = all_subsets()
+    for i in range(ctx.budget(24, mult=4)):
+        sseed = f"search:{ctx.seed}:{i}"
+        rng = random.Random("scenario:" + sseed)
+        subset = ACCEL_KINDS if i % 2 == 0 else subsets[rng.randrange(len(subsets))]
+        ops = gen_scenario(rng, list(subset), use_git=(i % 3 == 0), size=rng.choice([8, 10, 12]))
+        run_scenario(ctx, ops, f"q{i}", donor, "plan:" + sseed, always_entries=True)
+        if ctx.oracle_failures:
+            return
+
+
+def replay(ctx: core.Ctx, data: dict) -> int:
+    """Re-run one failing case: twin scenarios are replayed op by op (same plans, same donor); format cases
+    re-run the direct round-trip oracle on the stored input."""
+    _quiet()
+    c = data.get("case", {})
+    before = 0
+    if "ops" in c:
+        donor = None
+        if any(op[0] == "donor" for op in c["ops"]):
+            donor = build_donor(ctx, use_git=True, seed=data.get("seed", ctx.seed))
+        ops = list(c["ops"])
+        if not ops or ops[-1][0] != "check":
+            ops.append(["check", "replay"])
+        run_scenario(ctx, ops, c.get("sid", "replay"), donor, c.get("plan_seed") or "plan:replay", c.get("extra_plan"),
+                     always_entries=bool(c.get("entries_check")))
+    elif "bits" in c:
+        from dulwich.bitmap import EWAHBitmap
         bm = EWAHBitmap()
-        for p in bits:
+        for p in c["bits"]:
             bm.add(p)
-        real = bm.encode()
-        ctx.count("fmt.ewah.enc", tuple(bits), True, kind)
-        if mo != "ok " + hx(real):
-            ctx.disagree("fmt.ewah.enc", {"bits": bits[:200], "n": len(bits)}, mo[:300], "ok " + hx(real)[:300])
-        # direct oracle: the real pair round-trips, and never decodes beyond ceil(bit_count/64)*64
-        back = _try(lambda: EWAHBitmap(real))
-        if isinstance(back, list) or back.bits != set(bits):
-            ctx.oracle_fail("fmt.ewah.roundtrip", {"bits": bits[:300], "encoded": hx(real)[:400]},
-                            f"EWAHBitmap(b.encode()).bits != b.bits ({kind})", None)
-        dec_lines.append("c14.ewah.dec " + hx(real))
-        dec_meta.append(("real-bytes", real, bits))
-        if mo.startswith("ok ") and mo != "ok " + hx(real):
-            mb = unhx(mo[3:])
-            dec_meta.append(("model-bytes", mb, bits))
-            dec_lines.append("c14.ewah.dec " + hx(mb))
-    # hand-made / hostile encodings: decoder vs decoder
-    for _ in range(ctx.budget(300)):
-        nwords = rng.randint(0, 6)
-        words = []
-        for _ in range(nwords):
-            if rng.random() < 0.5:
-                words.append((rng.choice([0, 1, 2, 3, 7]) << 33) | (rng.choice([0, 1, 2, 3, 5, 2 ** 32 - 1]) << 1) | rng.getrandbits(1))
-            else:
-                words.append(rng.choice([0, 2 ** 64 - 1, rng.getrandbits(64), rng.getrandbits(64)]))
-        bit_count = rng.choice([0, 1, 63, 64, 65, 128, 200, 640, 64 * nwords, 64 * max(nwords - 1, 0)])
-        wc = rng.choice([nwords, nwords, nwords, nwords + 1, max(nwords - 1, 0), 0])
-        data = struct.pack(">II", bit_count, wc) + b"".join(struct.pack(">Q", w) for w in words) + struct.pack(">I", 0)
-        if rng.random() < 0.2:
-            data = data[: rng.randrange(len(data) + 1)]
-        dec_lines.append("c14.ewah.dec " + hx(data))
-        dec_meta.append(("crafted", data, None))
-    outs = ctx.driver.batch(dec_lines)
-    for (src, data, bits), mo in zip(dec_meta, outs):
-        def real_dec():
-            b = EWAHBitmap(data) if data else EWAHBitmap()
-            return b
-        r = _try(real_dec)
-        if isinstance(r, list):
-            ro = "err format" if r[1] in ("ValueError", "error") else "exc " + r[1]
-        else:
-            ro = f"ok {r.bit_count} {_csv(sorted(r.bits))}"
-            bc = r.bit_count
-            if r.bits and max(r.bits) >= ((bc + 63) // 64) * 64:
-                ctx.oracle_fail("fmt.ewah.bounded", {"data": hx(data)}, "decoder emitted a bit beyond ceil(bit_count/64)*64", None)
-        ctx.count("fmt.ewah.dec", data, True, src + ":" + ro[:3])
-        if mo != ro:
-            ctx.disagree("fmt.ewah.dec", {"data": hx(data)[:400], "src": src}, mo[:300], ro[:300])
-        if bits is not None and not isinstance(r, list) and r.bits != set(bits):
-            ctx.oracle_fail("fmt.ewah.roundtrip", {"bits": bits[:300], "src": src}, "cross-decoding returned other bits", None)
-    # word-level encoder on arbitrary word lists (incl. trailing zero words)
-    wl = []
-    for _ in range(ctx.budget(200)):
-        ws = []
-        for _ in range(rng.randint(0, 10)):
-            t = rng.choice("zol")
-            ws += [0 if t == "z" else 2 ** 64 - 1 if t == "o" else rng.getrandbits(64)] * rng.randint(1, 3)
-        wl.append(ws)
-    outs = ctx.driver.batch(["c14.ewah.encwords " + _csv(ws) for ws in wl])
-    for ws, mo in zip(wl, outs):
-        ro = _csv(_encode_ewah_words(list(ws)))
-        ctx.count("fmt.ewah.words", tuple(ws), True, f"n{len(ws)}")
-        if mo != ro:
-            ctx.disagree("fmt.ewah.words", {"words": ws}, mo[:300], ro[:300])
-    ctx.sample({"stream": "fmt.ewah", "bits": cases[9][1][:20], "real": hx(EWAHBitmap().encode())})
-
-
-def _entry_arg(cid: bytes, tree: bytes, parents, gen: int, time: int) -> str:
-    return f"{hx(cid)}:{hx(tree)}:{gen}:{time}:" + (",".join(hx(p) for p in parents) if parents else "-")
-
-
-def _real_entries_str(g) -> str:
-    from dulwich.objects import hex_to_sha
-    return "ok" + "".join(" " + _entry_arg(hex_to_sha(e.commit_id), hex_to_sha(e.tree_id), [hex_to_sha(p) for p in e.parents],
-                                             e.generation, e.commit_time) for e in g.entries)
-
-
-def build_cg_file(oids, recs, edges=None, version=1, hash_version=1, sig=b"CGPH") -> bytes:
-    """Harness-side commit-graph builder for reader tests (independent of the model and of dulwich's writer):
-    recs = [(tree, p1, p2, gen_word, time_word)], edges = list of 32-bit words or None."""
-    import struct
-    fan = [0] * 256
-    for o in oids:
-        fan[o[0]] += 1
-    cum, tot = [], 0
-    for c in fan:
-        tot += c
-        cum.append(tot)
-    chunks = [(b"OIDF", b"".join(struct.pack(">L", c) for c in cum)), (b"OIDL", b"".join(oids)),
-              (b"CDAT", b"".join(t + struct.pack(">LLLL", a, b, g, tm) for t, a, b, g, tm in recs))]
-    if edges is not None:
-        chunks.append((b"EDGE", b"".join(struct.pack(">L", w) for w in edges)))
-    off = 8 + 12 * (len(chunks) + 1)
-    toc = b""
-    for cid, data in chunks:
-        toc += cid + struct.pack(">Q", off)
-        off += len(data)
-    toc += b"\x00\x00\x00\x00" + struct.pack(">Q", off)
-    return sig + bytes([version, hash_version, len(chunks), 0]) + toc + b"".join(d for _, d in chunks)
-
-
-def _cgit_graph_files(ctx):
-    """Commit-graph files written by C git for small histories with octopus merges (EDGE chunk), with the true
-    parent lists."""
-    import shutil
-    out = []
-    for k in range(2 if not ctx.thorough else 6):
-        root = ctx.scratch / f"cgit-{k}"
-        if root.exists():
-            shutil.rmtree(root)
-        tw = Twin(root, None)
-        try:
-            rng = ctx.rng
-            names = []
-            for i in range(rng.randint(5, 9)):
-                pool = names[-6:]
-                kk = 0 if not names else min(len(pool), rng.choice([1, 2, 3, 4, 5]))
-                tw.apply(["commit", f"g{i}", rng.sample(pool, kk), "loose"])
-                names.append(f"g{i}")
-                if rng.random() < 0.5:
-                    tw.apply(["ref", f"refs/heads/x{i}", f"g{i}", "dulwich"])
-            tw.apply(["ref", "refs/heads/master", names[-1], "dulwich"])
-            _git(tw.A.path, "commit-graph", "write", "--reachable")
-            p = tw.A.path / "objects" / "info" / "commit-graph"
-            if p.exists():
-                out.append((p.read_bytes(), dict(tw.parents)))
-        finally:
-            tw.close()
-            shutil.rmtree(root, ignore_errors=True)
-    return out
-
-
-def stream_cg(ctx):
-    from io import BytesIO
-    from dulwich.commit_graph import CommitGraph, CommitGraphEntry
-    from dulwich.object_format import SHA1
-    from dulwich.objects import sha_to_hex
-    rng = ctx.rng
-    wr_lines, wr_meta = [], []
-    for _ in range(ctx.budget(150)):
-        n = rng.choice([1, 1, 2, 3, 5, 8, 12])
-        pool = []
-        while len(pool) < n:
-            o = rng.randbytes(20)
-            if rng.random() < 0.4 and pool:
-                o = bytes([rng.choice(pool)[0]]) + o[1:]          # same fan-out bucket
-            if rng.random() < 0.1:
-                o = bytes([rng.choice([0, 255])]) + o[1:]
-            if o not in pool:
-                pool.append(o)
-        outside = [rng.randbytes(20) for _ in range(2)]
-        ents = []
-        for o in pool:
-            k = rng.choice([0, 1, 1, 2, 2, 3, 4])
-            src = pool + (outside if rng.random() < 0.3 else [])
-            parents = [rng.choice(src) for _ in range(k)]
-            gen = rng.choice([0, 1, 5, 2 ** 30 - 1, 2 ** 30 - 1, 2 ** 30] if rng.random() < 0.2 else [0, 1, 5, 77])
-            tm = rng.choice([0, 1, 1_600_000_000, 2 ** 32 - 1, 2 ** 32, 2 ** 33 + 5, 2 ** 34 - 1])
-            ents.append((o, rng.randbytes(20), parents, gen, tm))
-        rng.shuffle(ents)
+        back = _try(lambda: EWAHBitmap(bm.encode()).bits)
+        print("replay ewah:", "round trip ok" if back == set(c["bits"]) else f"round trip FAILS: {str(back)[:200]}")
+        if back != set(c["bits"]):
+            ctx.oracle_fail("replay", c, "EWAH round trip fails")
+    elif "data" in c:
+        from dulwich.bitmap import EWAHBitmap
+        r = _try(lambda: EWAHBitmap(unhx(c["data"])))
+        if not isinstance(r, list) and r.bits and max(r.bits) >= ((r.bit_count + 63) // 64) * 64:
+            ctx.oracle_fail("replay", c, "decoder emitted a bit beyond the declared size")
+    elif "entries" in c:
+        from io import BytesIO
+        from dulwich.commit_graph import CommitGraph, CommitGraphEntry
+        from dulwich.object_format import SHA1
         g = CommitGraph(object_format=SHA1)
-        g.entries = [CommitGraphEntry(sha_to_hex(c), sha_to_hex(t), [sha_to_hex(p) for p in ps], gen, tm)
-                     for c, t, ps, gen, tm in ents]
+        ents = []
+        for e in c["entries"]:
+            cid, tree, gen, tm, ps = e.split(":")
+            ents.append((cid.encode(), [p.encode() for p in ps.split(",")] if ps != "-" else []))
+            g.entries.append(CommitGraphEntry(cid.encode(), tree.encode(), ents[-1][1], int(gen), int(tm)))
         f = BytesIO()
-        real = _try(lambda: (g.write_to_file(f), f.getvalue())[1])
-        wr_lines.append("c14.cg.write 1 " + " ".join(_entry_arg(*e) for e in ents))
-        wr_meta.append((ents, real))
-    outs = ctx.driver.batch(wr_lines)
-    rd_lines, rd_meta = [], []
-    for (ents, real), mo in zip(wr_meta, outs):
-        ro = "err format" if isinstance(real, list) else "ok " + hx(real)
-        ctx.count("fmt.cg.write", tuple(e[0] for e in ents), True, f"n{len(ents)}:maxp{max(len(e[2]) for e in ents)}")
-        if mo != ro:
-            ctx.disagree("fmt.cg.write", {"entries": [_entry_arg(*e) for e in ents]}, mo[:400], ro[:400])
-        if isinstance(real, list):
-            continue
-        rd_lines.append("c14.cg.read " + hx(real))
-        rd_meta.append(("dulwich-writer", real, ents))
-    # reader on harness-built files with EDGE chunks and odd parent words
-    M, X = 0x70000000, 0x80000000
-    for _ in range(ctx.budget(150)):
-        n = rng.randint(1, 6)
-        oids = sorted({rng.randbytes(20) for _ in range(n)})
-        n = len(oids)
-        edges = None
-        if rng.random() < 0.7:
-            edges = []
-            for _ in range(rng.randint(0, 6)):
-                w = rng.choice([rng.randrange(n), rng.randrange(n), n, n + 3, M])
-                if rng.random() < 0.35:
-                    w |= X
-                edges.append(w)
-        recs = []
-        for _ in oids:
-            odd = rng.random() < 0.12
-            p1 = rng.choice([n, M - 1, X, M + 1, 2 ** 32 - 1]) if odd else rng.choice([rng.randrange(n), rng.randrange(n), M])
-            odd = rng.random() < 0.12
-            p2 = rng.choice([n, M + 5, X | 1000, M - 1]) if odd else rng.choice(
-                [rng.randrange(n), M, M, X | rng.randrange(max(len(edges or []), 1) + 1), X])
-            recs.append((rng.randbytes(20), p1, p2, rng.getrandbits(32), rng.getrandbits(32)))
-        kw = {}
-        r = rng.random()
-        if r < 0.05:
-            kw["sig"] = b"CGPX"
-        elif r < 0.1:
-            kw["version"] = 2
-        elif r < 0.15:
-            kw["hash_version"] = rng.choice([0, 3])
-        data = build_cg_file(oids, recs, edges, **kw)
-        rd_lines.append("c14.cg.read " + hx(data))
-        rd_meta.append(("crafted", data, None))
-    for data, truth in _cgit_graph_files(ctx):
-        rd_lines.append("c14.cg.read " + hx(data))
-        rd_meta.append(("git-writer", data, None))
-        g = _try(lambda: CommitGraph.from_file(BytesIO(data)))
-        for c, ps in truth.items():
-            got = None if isinstance(g, list) else g.get_parents(c)
-            ctx.count("fmt.cg.git", (data, c), True, f"p{len(ps)}")
-            if got is not None and got != ps:
-                ctx.oracle_fail("fmt.cg.git", {"file": hx(data)[:600], "commit": c.decode(), "got": [x.decode() for x in got],
-                                               "want": [x.decode() for x in ps]},
-                                "commit-graph written by C git is read back with other parents", None)
-    outs = ctx.driver.batch(rd_lines)
-    gp_lines, gp_meta = [], []
-    for (src, data, ents), mo in zip(rd_meta, outs):
-        g = _try(lambda: CommitGraph.from_file(BytesIO(data)))
-        if isinstance(g, list):
-            ro = "err format" if g[1] in ("ValueError", "error") else "exc " + g[1]
-        else:
-            ro = _real_entries_str(g)
-        ctx.count("fmt.cg.read", data, True, src + ":" + ro[:3])
-        if mo != ro:
-            ctx.disagree("fmt.cg.read", {"file": hx(data)[:600], "src": src}, mo[:400], ro[:400])
-        if isinstance(g, list):
-            continue
-        if ents is not None:
-            # direct oracle on the format pair, in the property's words: the reader of the written file gives
-            # every commit's full parent list
-            inside = {e[0] for e in ents}
-            for c, _t, ps, _g, _tm in ents:
-                got = g.get_parents(sha_to_hex(c))
-                want = [sha_to_hex(p) for p in ps]
-                if got != want:
-                    octo = len(ps) > 2
-                    stored = ps[:2] if octo else ps
-                    cls = None
-                    if got == [sha_to_hex(p) for p in stored if p in inside]:
-                        cls = "commit-graph-octopus-parents-truncated" if octo else "commit-graph-parent-outside-set-dropped"
-                    ctx.oracle_fail("fmt.cg.roundtrip", {"entries": [_entry_arg(*e) for e in ents], "commit": hx(c)},
-                                    f"reader(writer(entries)) returns {len(got or [])} of {len(want)} parents", cls)
-                    break
-        qs = [e.commit_id for e in g.entries][:4] + [sha_to_hex(rng.randbytes(20))]
-        from dulwich.objects import hex_to_sha
-        gp_lines.append("c14.cg.getparents " + hx(data) + " " + " ".join(hx(hex_to_sha(q)) for q in qs))
-        gp_meta.append((data, g, qs))
-    outs = ctx.driver.batch(gp_lines)
-    for (data, g, qs), mo in zip(gp_meta, outs):
-        from dulwich.objects import hex_to_sha
-        parts = []
-        for q in qs:
-            ps = g.get_parents(q)
-            parts.append("none" if ps is None else (",".join(hx(hex_to_sha(p)) for p in ps) if ps else "-"))
-        ro = "ok " + " ".join(parts)
-        ctx.count("fmt.cg.getparents", (data, tuple(qs)), True, "q")
-        if mo != ro:
-            ctx.disagree("fmt.cg.getparents", {"file": hx(data)[:400]}, mo[:300], ro[:300])
-
-
-def stream_midx(ctx):
-    import struct
-    from io import BytesIO
-    from dulwich.midx import MultiPackIndex, write_midx
-    rng = ctx.rng
-    for it in range(ctx.budget(60)):
-        n = rng.choice([0, 1, 2, 3, 8, 20, 50])
-        oids = set()
-        while len(oids) < n:
-            o = rng.randbytes(20)
-            r = rng.random()
-            if r < 0.3 and oids:
-                o = bytes([rng.choice(sorted(oids))[0]]) + o[1:]
-            elif r < 0.45:
-                o = bytes([rng.choice([0, 1, 254, 255])]) + o[1:]
-            oids.add(o)
-        oids = sorted(oids)
-        offs = {}
-        used = set()
-        for o in oids:
-            while True:
-                v = rng.choice([rng.randrange(1, 10 ** 6), 2 ** 31 - 1, 2 ** 31, 2 ** 31 + rng.randrange(100), 2 ** 32 + rng.randrange(100),
-                                2 ** 40 + rng.randrange(100)]) if rng.random() < 0.4 else rng.randrange(12, 10 ** 7)
-                if v not in used:
-                    used.add(v)
-                    break
-            offs[o] = v
-        npacks = rng.randint(1, 3)
-        packs = [(f"pack-{i:040x}.idx", []) for i in range(npacks)]
-        where = {}
-        for o in oids:
-            k = rng.randrange(npacks)
-            packs[k][1].append((o, offs[o], None))
-            where[o] = k
-            if rng.random() < 0.15 and npacks > 1:                      # duplicate in another pack
-                k2 = (k + 1) % npacks
-                packs[k2][1].append((o, offs[o] + 1, None))
-                where[o] = min(k, k2)
-        f = BytesIO()
-        write_midx(f, packs)
-        data = f.getvalue()
-        m = MultiPackIndex("mem", contents=data)
-        fan = list(m._fanout_table)
-        table = [bytes(m._get_oid(i)) for i in range(len(m))]
-        if n == 0:
-            continue
-        probes = list(oids[:6])
-        for o in oids[:4]:
-            v = int.from_bytes(o, "big")
-            probes += [(v + d).to_bytes(20, "big") for d in (-1, 1) if 0 <= v + d < 2 ** 160]
-        probes += [rng.randbytes(20) for _ in range(3)] + [b"\x00" * 20, b"\xff" * 20,
-                                                          bytes([oids[0][0]]) + b"\x00" * 19, bytes([oids[-1][0]]) + b"\xff" * 19]
-        lines = ["c14.midx.fanout " + ",".join(hx(o) for o in oids),
-                 "c14.midx.lookups " + _csv(fan) + " " + ",".join(hx(o) for o in table) + " " + ",".join(hx(p) for p in probes),
-                 "c14.midx.offsets " + _csv(
-                     [next(off for (oo, off, _c) in packs[where[o]][1] if oo == o) for o in table])]
-        o_fan, o_look, o_off = ctx.driver.batch(lines)
-        ctx.count("fmt.midx.fanout", tuple(oids), True, f"n{n}")
-        if o_fan != _csv(fan) or table != oids:
-            ctx.disagree("fmt.midx.fanout", {"oids": [hx(o) for o in oids][:40]}, o_fan[:300], _csv(fan)[:300])
-        reals = []
-        for p in probes:
-            r = _try(lambda: m.object_offset(p))
-            if r is None:
-                reals.append("none")
-            elif isinstance(r, list):
-                reals.append("err-other")
-            else:
-                name, off = r
-                idx = table.index(p)
-                want_off = next(off2 for (oo, off2, _c) in packs[where[p]][1] if oo == p)
-                if name != packs[where[p]][0] or off != want_off:
-                    ctx.oracle_fail("fmt.midx.lookup", {"oid": hx(p), "got": [name, off], "want": [packs[where[p]][0], want_off]},
-                                    "MIDX lookup returns another pack/offset than the one written", None)
-                reals.append(str(idx))
-            ctx.count("fmt.midx.lookup", (tuple(oids), p), True, "hit" if reals[-1].isdigit() else reals[-1])
-            if (p in offs) != reals[-1].isdigit():
-                ctx.oracle_fail("fmt.midx.lookup", {"oid": hx(p), "present": p in offs, "answer": reals[-1]},
-                                "MIDX lookup disagrees with the set of ids written", None)
-        if o_look != " ".join(reals):
-            ctx.disagree("fmt.midx.lookup", {"oids": [hx(o) for o in table][:40], "probes": [hx(p) for p in probes]},
-                         o_look[:300], " ".join(reals)[:300])
-        # OOFF / LOFF words as written vs the model's spill
-        ooff = [struct.unpack(">L", data[m._ooff_offset + 8 * i + 4: m._ooff_offset + 8 * i + 8])[0] for i in range(len(m))]
-        nl = sum(1 for w in ooff if w & 0x80000000)
-        loff = [struct.unpack(">Q", data[m._loff_offset + 8 * i: m._loff_offset + 8 * i + 8])[0] for i in range(nl)] if nl else []
-        dec = [str(m._get_pack_info(i)[1]) for i in range(len(m))]
-        ro = f"{_csv(ooff)} {_csv(loff)} {','.join(dec)}"
-        ctx.count("fmt.midx.offsets", tuple(ooff), True, f"large{nl}")
-        if o_off != ro:
-            ctx.disagree("fmt.midx.offsets", {"n": n}, o_off[:300], ro[:300])
-        m.close()
-
-
-def stream_gate_refs(ctx):
-    from io import BytesIO
-    from dulwich.bitmap import PackBitmap, read_bitmap_file, write_bitmap_file
-    from dulwich.errors import ChecksumMismatch
-    from dulwich.refs import DiskRefsContainer
-    rng = ctx.rng
-    lines, meta = [], []
-    for _ in range(ctx.budget(40)):
-        a = rng.randbytes(20)
-        b = a if rng.random() < 0.4 else (a[:19] + bytes([a[19] ^ 1]) if rng.random() < 0.5 else rng.randbytes(20))
-        bm = PackBitmap()
-        bm.pack_checksum = b
-        f = BytesIO()
-        write_bitmap_file(f, bm)
-        try:
-            read_bitmap_file(BytesIO(f.getvalue()), pack_checksum=a)
-            real = "1"
-        except ChecksumMismatch:
-            real = "0"
-        lines.append(f"c14.gate {hx(a)} {hx(b)}")
-        meta.append((a, b, real))
-    outs = ctx.driver.batch(lines)
-    for (a, b, real), mo in zip(meta, outs):
-        ctx.count("fmt.gate", (a, b), True, real)
-        if mo != real:
-            ctx.disagree("fmt.gate", {"pack": hx(a), "stored": hx(b)}, mo, real)
-        if (a == b) != (real == "1"):
-            ctx.oracle_fail("fmt.gate", {"pack": hx(a), "stored": hx(b)}, "bitmap checksum gate does not separate own/foreign packs",
-                            "bitmap-for-other-pack-trusted")
-    # refs: loose files over packed-refs
-    import shutil
-    names = ["refs/heads/a", "refs/heads/b", "refs/tags/t", "refs/heads/x/y"]
-    shas = [("%040x" % (i + 1)) for i in range(5)]
-    lines, meta = [], []
-    for it in range(ctx.budget(30)):
-        d = ctx.scratch / f"refs-{it}"
-        if d.exists():
-            shutil.rmtree(d)
-        d.mkdir(parents=True)
-        loose = {n: rng.choice(shas) for n in names if rng.random() < 0.5}
-        packed = {n: rng.choice(shas) for n in names if rng.random() < 0.6}
-        for n, v in loose.items():
-            p = d / n
-            p.parent.mkdir(parents=True, exist_ok=True)
-            p.write_text(v + "\n")
-        if packed or rng.random() < 0.5:
-            (d / "packed-refs").write_text("# pack-refs with: peeled fully-peeled sorted \n" +
-                                           "".join(f"{v} {n}\n" for n, v in sorted(packed.items())))
-        rc = DiskRefsContainer(str(d))
-        for n in names + ["refs/heads/none"]:
-            real = rc.read_ref(n.encode())
-            lines.append("c14.refs.read " + (";".join(f"{k}={v}" for k, v in loose.items()) or "-") + " " +
-                         (";".join(f"{k}={v}" for k, v in packed.items()) or "-") + " " + n)
-            meta.append(("read", (real or b"none").decode()))
-        # pack_refs(all=True) then read back the files themselves
-        sel = [n for n in names if n in loose or n in packed]
-        rc.pack_refs(all=True)
-        for n in names:
-            lf = d / n
-            lval = lf.read_text().strip() if lf.is_file() else "none"
-            pval = "none"
-            if (d / "packed-refs").exists():
-                for ln in (d / "packed-refs").read_text().splitlines():
-                    if ln.endswith(" " + n) and not ln.startswith("#"):
-                        pval = ln.split(" ")[0]
-            rval = (DiskRefsContainer(str(d)).read_ref(n.encode()) or b"none").decode()
-            lines.append("c14.refs.pack " + (";".join(f"{k}={v}" for k, v in loose.items()) or "-") + " " +
-                         (";".join(f"{k}={v}" for k, v in packed.items()) or "-") + " " + (",".join(sel) or "-") + " " + n)
-            meta.append(("pack", f"{lval} {pval} {rval}"))
-        shutil.rmtree(d, ignore_errors=True)
-    outs = ctx.driver.batch(lines)
-    for (what, real), mo, ln in zip(meta, outs, lines):
-        ctx.count("fmt.refs." + what, ln, True, what)
-        if mo != real:
-            ctx.disagree("fmt.refs." + what, {"line": ln}, mo, real)
+        g.write_to_file(f)
+        g2 = CommitGraph.from_file(BytesIO(f.getvalue()))
+        for cid, ps in ents:
+            if g2.get_parents(cid) != ps:
+                print("replay commit-graph:", cid.decode(), "read back", g2.get_parents(cid), "written", ps)
+                ctx.oracle_fail("replay", c, "commit-graph parent round trip fails", data.get("class"))
+                break
+    else:
+        print("replay: nothing replayable in this file (broken-obligation report?)")
+    for f in ctx.oracle_failures[before:]:
+        print("replay: FAILS:", f["what"][:300])
+    for k, n in ctx.known_hit.items():
+        print(f"replay: known finding {k} reproduced ({n}x)")
+    if ctx.oracle_failures:
+        print(f"VIOLATION property=C14 replay={data.get('_path', '<replayed>')}")
+        return 1
+    print("replay: property holds on this case" + (" (apart from known findings)" if ctx.known_hit else ""))
+    return 0
